@@ -229,8 +229,28 @@ type runner struct {
 const f0Content = "F0: the quick brown fox jumps over the lazy dog; 0123456789 ABCDEFGHIJKLMNOPQRSTUVWXYZ abcdefghijkl\n"
 const f1Content = "F1: second file inside d0, fifty bytes of content\n"
 
+// dirties says whether the function can change the host tree.
+func (f *fnSpec) dirties() bool {
+	switch f.name {
+	case "path_filestat_get", "path_readlink":
+		return false
+	case "fd_filestat_set_times":
+		return true
+	}
+	return f.mutating || strings.HasPrefix(f.name, "path_")
+}
+
+var procDir string
+
 func (r *runner) makeTree() error {
-	d, err := os.MkdirTemp(r.cs.Tmp, "t-")
+	if procDir == "" {
+		// one parent directory per child process (no contention on a shared one)
+		procDir = filepath.Join(r.cs.Tmp, fmt.Sprintf("p%d", os.Getpid()))
+		if err := os.MkdirAll(procDir, 0o755); err != nil {
+			return err
+		}
+	}
+	d, err := os.MkdirTemp(procDir, "t-")
 	if err != nil {
 		return err
 	}
@@ -603,7 +623,7 @@ func (r *runner) doCall(f *fnSpec, args []uint64) {
 	in := r.in
 	res := r.res
 	in.hist = append(in.hist, callSpec{f.name, args})
-	if r.cs.Mount == mtDir || r.cs.Mount == mtSock {
+	if (r.cs.Mount == mtDir || r.cs.Mount == mtSock) && f.dirties() {
 		r.dirty = true
 	}
 	in.mem.Write(0, r.tmpl)
